@@ -857,12 +857,35 @@ def metadata_readers(repo, tier):
                 except Exception as e:  # noqa
                     ok, why = False, f"judgement gave up: {type(e).__name__}: {e}"
                 o = ground_obligation(oid, ok, f"{rel}: {why}", rel, definite=False)
+                if not ok:
+                    hint = dict(hint, strings=_transform_strings(by_node, metacls, field))
             o["replay_hint"] = hint
             obls.append(o)
         if err is None:
             fns.append({"function": f"{rel}::<metadata stores of {metacls}>", "lines": [1, 1], "file_sha256": mod.sha256, "segment_sha256": mod.sha256,
                         "obligations": len(props)})
     return {"obligations": obls, "functions": fns}
+
+
+def _transform_strings(by_node, metacls, field):
+    """String constants that occur as arguments of method calls on the way to the field (rstrip("Z"), replace("a", "b") ...):
+    the replayer builds property values around them."""
+    out = []
+
+    def walk(t):
+        if isinstance(t, tuple):
+            if t[:1] == ("mcall",) and len(t) >= 4:
+                for a in t[3]:
+                    if isinstance(a, tuple) and a[:1] == ("const",) and isinstance(a[1], str) and a[1] and a[1] not in out:
+                        out.append(a[1])
+            for x in t:
+                if isinstance(x, tuple):
+                    walk(x)
+    for contexts in by_node.values():
+        for s in contexts:
+            if is_target(s, metacls, None) and any(f == ("const", field) for f in alternatives(s.field)):
+                walk(s.value)
+    return out[:6]
 
 
 def _judge_property(by_node, kind, metacls, prop, field, tag, allowed, props):
